@@ -192,4 +192,5 @@ def gen_history(rng, cfg=None):
         rnd = rng.choice(rounds)
         rnd['edits'] = list(rnd['edits']) + [{'m': 'delete', 'p': rng.choice(twins)}]
     return {'order_key': '%016x' % rng.getrandbits(64), 'top': 'Manifest', 'tree': tree,
+            'chunks': rng.choice([None, None, None, 'mixed', 'tiny', 4096]),
             'manifests': manifests, 'rounds': rounds}
